@@ -108,6 +108,19 @@ class Run:
             if ckey != fn:
                 for ob in ex.obligations:
                     ob.name = ob.name.replace(f"/{fn}/", f"/{fn}[{ckey.split(':')[-1]}]/")
+            if fspec.get("runs_as"):
+                # the contract is stated for a receiver of a subclass: the function verified must be the one that class's
+                # method resolution order finds (an override in the subclass would leave the verified text dead code)
+                from . import front as _front
+                from .engine import Obligation
+                cls_q, mname = fspec["runs_as"].rsplit(".", 1)
+                ci = self.world.lookup(cls_q)
+                found = ex.find_member(ci, mname, "method") if isinstance(ci, _front.ClassInfo) else None
+                same = found is not None and found.qualname == fn
+                tagname = f"/{fn}[{ckey.split(':')[-1]}]/" if ckey != fn else f"/{fn}/"
+                ob = Obligation(f"{self.pid}{tagname}dispatch:inherited", [], z3.BoolVal(bool(same)), fn, "dispatch",
+                                clause=f"{fspec['runs_as']} resolves to {fn} (found: {found.qualname if found is not None else None})")
+                ex.obligations.append(ob)
             rep["paths"] = len(exits)
             rep["vcgen_s"] = round(time.time() - t, 3)
             rep["obligations"] = len(ex.obligations)
